@@ -238,6 +238,32 @@ Proof.
     intros; first [apply momo_probe_cover; auto | apply momo_calc_le; [apply V|lia]].
 Qed.
 
+(* last round: in a reachable state the copy constructor does not throw when the contents fit the largest table (2^max_log buckets), and the
+   overloadIfCannotGrow fallback does not throw when the newest table has a free slot *)
+Theorem momo_copy_never_throws c (h : Z -> Z) : cfg_valid c -> forall s,
+  Reach BS bs0 (decode_fn (c_bound c)) h (c_cap c) (c_unlimited c) (c_wf0 c) start_fn (next_fn (c_probing c)) max_log
+        (Binv_of (c_bound c)) s ->
+  c_logStart c <= max_log -> count s <= calc_capacity (c_pol c) (c_cap c) (2 ^ max_log) ->
+  exists s', step_gen c h s OCopy = (s', RUnit).
+Proof.
+  intros V s HR Hls Hfit. unfold step_gen.
+  eapply (copy_no_throw BS bs0 _ _ h _ _ (c_wf0 c) _ _ _ _ (calc_capacity (c_pol c) (c_cap c)) _ _ _ (momo_instances_ok c V)); eauto;
+    try (intros; first [apply momo_probe_cover; auto | apply momo_calc_le; [apply V|lia]]).
+  pose proof (cv_logStart c V). unfold max_log in *. lia.
+Qed.
+
+Theorem momo_nomem_insert_never_throws c (h : Z -> Z) : cfg_valid c -> forall s kv t r,
+  Reach BS bs0 (decode_fn (c_bound c)) h (c_cap c) (c_unlimited c) (c_wf0 c) start_fn (next_fn (c_probing c)) max_log
+        (Binv_of (c_bound c)) s ->
+  gens s = t :: r -> Z.of_nat (length (flat_map (@items BS) (tbs t))) < c_cap c * 2 ^ tlog t ->
+  exists s', hadd_nomem BS bs0 (upd_fn (c_bound c)) h (c_cap c) (c_unlimited c) (c_wf0 c) (c_wfThr c) start_fn (next_fn (c_probing c))
+               (c_logStart c) (calc_capacity (c_pol c) (c_cap c)) (shift_fn (c_pol c) (c_cap c)) max_log s kv = Some s'.
+Proof.
+  intros V s kv t r HR Eg Hroom.
+  eapply (nomem_insert_no_throw BS bs0 (decode_fn (c_bound c)) _ h _ _ (c_wf0 c) _ _ _ _ (calc_capacity (c_pol c) (c_cap c)) _ _ _ (momo_instances_ok c V)); eauto;
+    intros; first [apply momo_probe_cover; auto | apply momo_calc_le; [apply V|lia]].
+Qed.
+
 (* two containers + holder, every valid configuration, every hash function, every history without a throwing MergeTo *)
 Theorem momo_world_refines_all_histories c (h : Z -> Z) : cfg_valid c -> forall os,
   no_merge_exn os (snd (wrun_gen c h winit_cfg os)) ->
